@@ -17,6 +17,10 @@ class HarnessAbort(BaseException):
     """Raised by the fake when the implementation does not stop (unbounded retry)."""
 
 
+class LinkError(Exception):
+    """Raised by the fake link inside send_packet when asked to (a USB / radio driver error)."""
+
+
 class Tgt:
     def __init__(self, tid, ps, bp, fp, buf=None, flash=None):
         self.tid, self.ps, self.bp, self.fp = tid, ps, bp, fp
@@ -66,12 +70,17 @@ class Link:
         self.closed = False
         self.consec_writes = 0
         self.policy = None      # optional: callable(frame data) -> attempt, instead of the script
+        self.raise_at = None    # optional: raise LinkError at the n-th send_packet counted from nsend = 0
+        self.nsend = 0
 
     def send_packet(self, pk):
         hdr = pk.header
         d = bytes(pk.data)
         if len(self.sent) >= self.MAX_FRAMES:
             raise HarnessAbort('too many frames')
+        self.nsend += 1
+        if self.raise_at is not None and self.nsend == self.raise_at:
+            raise LinkError('link failed at frame %d' % self.nsend)
         if hdr == 0xFF and len(d) >= 2 and d[1] == 0x18:
             self.consec_writes += 1
             if self.consec_writes > 64:
